@@ -74,6 +74,7 @@ class AbstractBlob:
         'readers',
         'added_on',
         'is_mine',
+        'length_claimed_by_peer',
     ]
 
     def __init__(
@@ -92,6 +93,7 @@ class AbstractBlob:
         self.readers: typing.List[typing.BinaryIO] = []
         self.added_on = added_on or time.time()
         self.is_mine = is_mine
+        self.length_claimed_by_peer = False  # True while `length` is only what some peer announced
 
         if not is_valid_blobhash(blob_hash):
             raise InvalidBlobHashError(blob_hash)
@@ -210,6 +212,7 @@ class AbstractBlob:
         def update_events(_):
             self.verified.set()
             self.writing.clear()
+            self.length_claimed_by_peer = False
 
         if self.is_writeable():
             self.writing.set()
@@ -226,9 +229,14 @@ class AbstractBlob:
         writer = HashBlobWriter(self.blob_hash, self.get_length, fut)
         self.writers[(peer_address, peer_port)] = writer
 
-        def remove_writer(_):
+        def remove_writer(finished: asyncio.Future):
             if (peer_address, peer_port) in self.writers:
                 del self.writers[(peer_address, peer_port)]
+            if self.length_claimed_by_peer and not self.writers and not self.verified.is_set() and not self.writing.is_set() \
+                    and (finished.cancelled() or finished.exception() is not None):
+                # the last download attempt failed: forget a length that was only a peer's claim
+                self.length = None
+                self.length_claimed_by_peer = False
 
         fut.add_done_callback(remove_writer)
 
